@@ -4,13 +4,18 @@ import explore
 import conn
 
 
-def pairs(F):
-    """impl_self -> {method name -> fn} for types that have both serialisers."""
+def pairs(F, both=True):
+    """impl_self -> {method name -> fn} for serialisable types; both=True keeps only those that have the contiguous and the
+    vectored serialiser (the vectored one exists only with the `std` feature: IoSlice)."""
     by = {}
     for f in F.fns.values():
         if f.get("kind") == "AssocFn" and f.get("name") in ("to_continuous_buffer", "to_buffers", "size") and f.get("impl_self") and not f.get("impl_trait"):
             by.setdefault(f["impl_self"], {})[f["name"]] = f
-    return {k: v for k, v in by.items() if "to_continuous_buffer" in v and "to_buffers" in v}
+    return {k: v for k, v in by.items() if "to_continuous_buffer" in v and ("to_buffers" in v or not both)}
+
+
+def has_vectored(F):
+    return any(f.get("name") == "to_buffers" for f in F.fns.values())
 
 
 def norm_item(interned, it):
